@@ -848,6 +848,40 @@ theorem vam_send_deepcopy_witness :
   refine ⟨by decide, by decide, by decide, fun c ldm h => ?_⟩
   simp [vamSend, h]
 
+/-! ### round 5: every repetition of a DENM encodes the position the event was REQUESTED with -/
+
+/-- regenerated fact: `request_denm_sending` hands the repetition thread a DEEP copy of the event position
+(`DENM_REQ_SNAPSHOT = 2`); `dict(...)` / `.copy()` / `copy.copy(...)` (1) or the caller's dictionary itself (0) re-open
+the theorem below -/
+theorem denm_request_snapshot_deep : DENM_REQ_SNAPSHOT = 2 := by decide
+
+/-- for EVERY requested position, EVERY history of caller operations on the dictionary it passed (top-level
+assignments, in-place mutations and rebindings of the nested `positionConfidenceEllipse` / `altitude` records,
+before the first and between any two repetitions) and any number of repetitions: every repetition encodes exactly the
+requested position -/
+theorem denm_repetitions_encode_requested_position (p : ReqPos) (hist : List (List CallerOp)) :
+    repetitions DENM_REQ_SNAPSHOT p hist = List.replicate hist.length p := by
+  rw [denm_request_snapshot_deep]
+  exact repsFrom_deep hist (accept 2 p) rfl
+
+/-- non-vacuity: three repetitions, the caller refreshes its record in place after the first one -/
+example :
+    repetitions 2 ⟨413873040, 21124850, ⟨400, 250, 0⟩, ⟨12130, 8⟩⟩
+      [[], [.setLat 413918770, .setLon 21200110, .altInPlace ⟨6480, 8⟩, .ellInPlace ⟨900, 300, 900⟩], [.altRebind ⟨1, 2⟩]]
+    = [⟨413873040, 21124850, ⟨400, 250, 0⟩, ⟨12130, 8⟩⟩, ⟨413873040, 21124850, ⟨400, 250, 0⟩, ⟨12130, 8⟩⟩,
+       ⟨413873040, 21124850, ⟨400, 250, 0⟩, ⟨12130, 8⟩⟩] := by decide
+
+/-- witness (not a claim): with a SHALLOW copy the same history makes repetitions 2 and 3 encode the OLD
+latitude / longitude with the NEW altitude and confidence ellipse - a position no report ever contained; a later
+rebinding of the caller's key does not reach the request; without any copy the repetitions follow the caller -/
+theorem denm_snapshot_shallow_witness :
+    repetitions 1 ⟨413873040, 21124850, ⟨400, 250, 0⟩, ⟨12130, 8⟩⟩
+      [[], [.setLat 413918770, .setLon 21200110, .altInPlace ⟨6480, 8⟩, .ellInPlace ⟨900, 300, 900⟩], [.altRebind ⟨1, 2⟩]]
+    = [⟨413873040, 21124850, ⟨400, 250, 0⟩, ⟨12130, 8⟩⟩, ⟨413873040, 21124850, ⟨900, 300, 900⟩, ⟨6480, 8⟩⟩,
+       ⟨413873040, 21124850, ⟨900, 300, 900⟩, ⟨6480, 8⟩⟩] ∧
+    repetitions 0 ⟨413873040, 21124850, ⟨400, 250, 0⟩, ⟨12130, 8⟩⟩ [[], [.setLat 413918770, .altRebind ⟨1, 2⟩]]
+    = [⟨413873040, 21124850, ⟨400, 250, 0⟩, ⟨12130, 8⟩⟩, ⟨413918770, 21124850, ⟨400, 250, 0⟩, ⟨1, 2⟩⟩] := by decide
+
 /-! ### the defects of the pinned commit (repaired by the `fix:` commits), machine-checked witnesses -/
 
 /-- C11-F1: with the old guards (`alt < -800000`, `alt > 613000`) 7000 m — representable — was written as
